@@ -44,11 +44,24 @@ def thetas_digest(paths):
     return h.hexdigest()[:12]
 
 
+class Interrupted(BaseException):
+    pass
+
+
 class RealPipe:
-    def __init__(self, n_chains=1, n_chunks=2, seed=0):
+    def __init__(self, n_chains=1, n_chunks=2, seed=0, crash_before_call=None):
         self.n_chains, self.n_chunks, self.seed = n_chains, n_chunks, seed
         self.events, self.prepared = [], None
         self.tok = {}
+        self.calls, self.crash_before_call = 0, crash_before_call
+
+    def cli(self, name, argv):
+        """one command-line program = one process of the workflow; the run may be interrupted before any of them"""
+        if self.crash_before_call is not None and self.calls == self.crash_before_call:
+            self.crash_before_call = None
+            raise Interrupted()
+        self.calls += 1
+        _cli(name, argv)
 
     def t(self, digest):
         return self.tok.setdefault(digest, len(self.tok) + 1)
@@ -75,7 +88,7 @@ class RealPipe:
         if a["mode"] == "retrospective":
             if a.get("initialize") == "true":
                 tr, te = os.path.join(d("prepare"), "training.screen.h5"), os.path.join(d("prepare"), "test.screen.h5")
-                _cli("prepare_retrospective_simulation", ["--data", a["screen"], "--training-output", tr, "--test-output", te, "--plate-generator",
+                self.cli("prepare_retrospective_simulation", ["--data", a["screen"], "--training-output", tr, "--test-output", te, "--plate-generator",
                                                           "SampleSegregatingPermutationPlateGenerator", "--plate-generator-param", "max_plate_size=3",
                                                           "--holdout-fraction", "0.25", "--seed", self.seed])
                 self.prepared = proj(tr)
@@ -85,13 +98,13 @@ class RealPipe:
             ths = []
             for c in range(self.n_chains):
                 fn = os.path.join(d("train"), "thetas_%d.h5" % c)
-                _cli("train_model", ["--data", screen, "--model", "SparseDrugCombo", "--model-param", "n_embedding_dimensions=2", "--n-burnin", 1,
+                self.cli("train_model", ["--data", screen, "--model", "SparseDrugCombo", "--model-param", "n_embedding_dimensions=2", "--n-burnin", 1,
                                      "--n-samples", 3, "--thin", 1, "--chain-index", c, "--n-chains", self.n_chains, "--output", fn, "--seed", self.seed])
                 ths.append(fn)
             dms = []
             for c in range(self.n_chunks):
                 fn = os.path.join(d("distance"), "distance_matrix_chunk_%d.h5" % c)
-                _cli("calculate_distance_matrix", ["--data", screen, "--thetas"] + ths + ["--distance-metric", "MSEDistance", "--chunk-index", c,
+                self.cli("calculate_distance_matrix", ["--data", screen, "--thetas"] + ths + ["--distance-metric", "MSEDistance", "--chunk-index", c,
                                                   "--n-chunks", self.n_chunks, "--output", fn])
                 dms.append(fn)
         else:
@@ -100,16 +113,16 @@ class RealPipe:
         scs = []
         for c in range(self.n_chunks):
             fn = os.path.join(d("score"), "score_chunk_%d.h5" % c)
-            _cli("calculate_scores", ["--data", screen, "--thetas"] + ths + ["--distance-matrix"] + dms + ["--chunk-index", c, "--n-chunks", self.n_chunks,
+            self.cli("calculate_scores", ["--data", screen, "--thetas"] + ths + ["--distance-matrix"] + dms + ["--chunk-index", c, "--n-chunks", self.n_chunks,
                                       "--scorer", "GaussianDBALScorer", "--seed", 12, "--output", fn] + (["--batch-plate-ids"] + excl if excl else []))
             scs.append(fn)
         sel = os.path.join(d("select"), "selected_plate")
-        _cli("select_next_plate", ["--data", screen, "--scores"] + scs + ["--output", sel] + (["--batch-plate-id"] + excl if excl else []))
+        self.cli("select_next_plate", ["--data", screen, "--scores"] + scs + ["--output", sel] + (["--batch-plate-id"] + excl if excl else []))
         chosen = int(open(sel).read().strip())
         adv = os.path.join(d("reveal"), "advanced_screen.h5")
-        _cli("reveal_plate", ["--screen", screen, "--plate-id", chosen, "--output", adv])
+        self.cli("reveal_plate", ["--screen", screen, "--plate-id", chosen, "--output", adv])
         meta = os.path.join(d("metadata"), "screen_metadata.json")
-        _cli("extract_screen_metadata", ["--screen", adv, "--output", meta])
+        self.cli("extract_screen_metadata", ["--screen", adv, "--output", meta])
         self.events.append({"s": step, "input": proj(screen), "thetas": self.t(thetas_digest(ths)), "excl": excl, "selected": chosen,
                             "output": proj(adv), "meta": int(json.load(open(meta))["n_unobserved_plates"])})
         return 0
@@ -132,7 +145,7 @@ def input_screen(path, rnd, n_samples=2, per_sample=9):
            control_treatment_name="ctl").save_h5(path)
 
 
-def end_to_end(B, seed, n_chains=1, n_chunks=2):
+def end_to_end(B, seed, n_chains=1, n_chunks=2, crash_before_call=None):
     rnd = random.Random(seed)
     mod = load_script()
     root = tempfile.mkdtemp(prefix="verif-e2e-")
@@ -140,13 +153,24 @@ def end_to_end(B, seed, n_chains=1, n_chunks=2):
     try:
         inp = os.path.join(root, "in.screen.h5")
         input_screen(inp, rnd)
-        pipe = RealPipe(n_chains=n_chains, n_chunks=n_chunks, seed=seed)
+        pipe = RealPipe(n_chains=n_chains, n_chunks=n_chunks, seed=seed, crash_before_call=crash_before_call)
         mod.subprocess.check_call = pipe.check_call
         old = sys.argv
         sys.argv = ["batchie.py", "--screen", inp, "--batch-size", str(B), "--mode", "retrospective", "--outdir", os.path.join(root, "out")]
         np.random.seed(seed)
+        import re
         try:
-            st, r = outcome(mod.main)
+            for attempt in range(6):
+                try:
+                    st, r = outcome(mod.main)
+                except Interrupted:
+                    continue                      # the whole run was killed: simply run the script again
+                if st != "ok":
+                    m = re.search(r"continue simulation: (.*)$", r)
+                    if r.startswith("RuntimeError") and m and os.path.isdir(m.group(1).strip()):
+                        shutil.rmtree(m.group(1).strip())      # the operator removes the directory the script names
+                        continue
+                break
         finally:
             sys.argv = old
         if st != "ok":
@@ -168,8 +192,10 @@ def run_e2e(ctx, owner, configs):
                                         properties=["Terminates"]), note="composed loop, 5 plates, B=%d" % B)
         if r.violation:
             ctx.violation("design-level: Pipeline violates %s" % r.violation, {"kind": "tlc", "tlc": r.violation_text[:2000]})
-    for B, seed in configs:
-        t = end_to_end(B, seed)
+    for cfg in configs:
+        B, seed = cfg[0], cfg[1]
+        crash = cfg[2] if len(cfg) > 2 else None
+        t = end_to_end(B, seed, crash_before_call=crash)
         ctx.evaluations += 1
         if "raised" in t:
             msg = "end-to-end run (real script + real command-line programs, B=%d) raised: %s" % (B, t["raised"])
@@ -187,4 +213,4 @@ def run_e2e(ctx, owner, configs):
                 ctx.violation(msg, {"kind": "e2e", "B": B, "seed": seed, "clause": clause})
             else:
                 print("NOTE end-to-end: %s - this clause belongs to %s and is decided by its check" % (msg, own))
-        ctx.extra.setdefault("end_to_end_runs", []).append({"B": B, "seed": seed, "steps": len(t["events"]), "selected": [e["selected"] for e in t["events"]]})
+        ctx.extra.setdefault("end_to_end_runs", []).append({"B": B, "seed": seed, "interrupted_before_program": crash, "steps": len(t["events"]), "selected": [e["selected"] for e in t["events"]]})
